@@ -388,3 +388,24 @@ PRESERVING += [
 BREAKING += [
     ('c01-rebuild-type-order', ['C01'], [(A, "new_item = item.__class__(*d.values())", "new_item = type(item)(*d.values())", 'all'), (A, _UTYPE_INIT, _UTYPE_INIT_SWAPPED)]),
 ]
+
+_PACK_STMTS = "        code = struct.pack(fmt, code)\n        blob = Blob(item.line, code)\n        new_items.append(blob)\n\n        log_conversion('resolve_instructions', item, blob)"
+_SIZE_SEL = "        size = 2 if isinstance(item, CompressedInstruction) else 4\n"
+_RESOLVE_DEF = "def resolve_instructions(items):"
+_ENC_ARMS_OLD = "            " + _ISA_OLD + "\n" + _AQRL_OLD + "\n            else:\n                args = item.args()\n                code = encode_func(*args)"
+PRESERVING += [
+    ('p-pack-to-bytes', ['C01', 'C02'], [(A, _FMT_OLD, _SIZE_SEL), (A, _PACK_STMTS, _PACK_STMTS.replace("struct.pack(fmt, code)", "code.to_bytes(size, 'little')"))]),
+    ('p-pack-struct-const', ['C01', 'C02'], [(A, _RESOLVE_DEF, "WORD = struct.Struct('<I')\nHALF = struct.Struct('<H')\n\n\n" + _RESOLVE_DEF),
+                                             (A, _FMT_OLD, "        packer = HALF if isinstance(item, CompressedInstruction) else WORD\n"),
+                                             (A, _PACK_STMTS, _PACK_STMTS.replace("struct.pack(fmt, code)", "packer.pack(code)"))]),
+    ('p-pack-kwargs-dict', ['C01', 'C02'], [(A, _ENC_ARMS_OLD, "            args = item.args()\n            extra = {}\n            " + _ISA_OLD + "\n                extra = {'aq': args[-2], 'rl': args[-1]}\n                args = args[:-2]\n            code = encode_func(*args, **extra)")]),
+    ('p-pack-format-helper', ['C01', 'C02'], [(A, _RESOLVE_DEF, "def word_format(item):\n    if isinstance(item, CompressedInstruction):\n        return '<H'\n    return '<I'\n\n\n" + _RESOLVE_DEF),
+                                              (A, _FMT_OLD, "        fmt = word_format(item)\n")]),
+]
+BREAKING += [
+    ('c01-pack-to-bytes-big', ['C01'], [(A, _FMT_OLD, _SIZE_SEL), (A, _PACK_STMTS, _PACK_STMTS.replace("struct.pack(fmt, code)", "code.to_bytes(size, 'big')"))]),
+    ('c02-pack-struct-const-swapped', ['C02'], [(A, _RESOLVE_DEF, "WORD = struct.Struct('<I')\nHALF = struct.Struct('<H')\n\n\n" + _RESOLVE_DEF),
+                                                (A, _FMT_OLD, "        packer = WORD if isinstance(item, CompressedInstruction) else HALF\n"),
+                                                (A, _PACK_STMTS, _PACK_STMTS.replace("struct.pack(fmt, code)", "packer.pack(code)"))]),
+    ('c01-pack-kwargs-dict-swapped', ['C01'], [(A, _ENC_ARMS_OLD, "            args = item.args()\n            extra = {}\n            " + _ISA_OLD + "\n                extra = {'aq': args[-1], 'rl': args[-2]}\n                args = args[:-2]\n            code = encode_func(*args, **extra)")]),
+]
